@@ -99,6 +99,10 @@ def plan_items(prop, tier, seed, ncases):
             npair = len(directed.pair_templates())
             for q in range(_lim(npair if tier == "thorough" else (npair * 2) // 3)):
                 items.append(("directed", (base % 20000) * 100000 + 80000 + q, tier, prop))
+            if tier != "thorough":
+                # the Awkward third of the list: every second template in the quick tier, the phase chosen by the seed
+                for q in range((npair * 2) // 3 + base % 2, _lim(npair) if SWEEP_LIMIT[0] is None else 0, 2):
+                    items.append(("directed", (base % 20000) * 100000 + 80000 + q, tier, prop))
     for i in range(n):
         kind = bag[i % len(bag)]
         if kind == "mutworld":
